@@ -107,7 +107,23 @@ fn servers() -> &'static Vec<Srv> {
 
 fn refusing_addr() -> SocketAddr {
     static A: std::sync::OnceLock<SocketAddr> = std::sync::OnceLock::new();
-    *A.get_or_init(|| std::net::TcpListener::bind("127.0.0.1:0").unwrap().local_addr().unwrap())
+    // a socket that is bound and never listens: connecting to it is refused, and — unlike a listener that was
+    // bound and dropped — nobody else on the machine (another shard, another check) can be given the port
+    *A.get_or_init(|| unsafe {
+        let fd = libc::socket(libc::AF_INET, libc::SOCK_STREAM, 0);
+        assert!(fd >= 0, "socket()");
+        let mut sa: libc::sockaddr_in = std::mem::zeroed();
+        sa.sin_family = libc::AF_INET as libc::sa_family_t;
+        sa.sin_addr.s_addr = u32::from_ne_bytes([127, 0, 0, 1]);
+        sa.sin_port = 0;
+        let len = std::mem::size_of::<libc::sockaddr_in>() as libc::socklen_t;
+        assert_eq!(libc::bind(fd, &sa as *const _ as *const libc::sockaddr, len), 0, "bind()");
+        let mut out: libc::sockaddr_in = std::mem::zeroed();
+        let mut olen = len;
+        assert_eq!(libc::getsockname(fd, &mut out as *mut _ as *mut libc::sockaddr, &mut olen), 0, "getsockname()");
+        // fd deliberately leaked for the life of the process
+        SocketAddr::from(([127, 0, 0, 1], u16::from_be(out.sin_port)))
+    })
 }
 
 fn addr_of(i: i128) -> SocketAddr {
